@@ -1349,9 +1349,9 @@ class Result:
             sorted_ = True
 
         data = {'x': list(Xs.keys())}
-        for _l, group in grouper(rows, key=itemgetter(0), val=itemgetter(slice(1,None)), sorted_=sorted_):
+        for _l, group in grouper(rows, key=itemgetter(0), val=itemgetter(slice(1,None)), sorted_=False):
             Y = [[float('nan')]]*len(Xs)
-            for _x, group in grouper(group, key=itemgetter(0), val=itemgetter(1), sorted_=sorted_):
+            for _x, group in grouper(group, key=itemgetter(0), val=itemgetter(1), sorted_=False):
                 Y[Xs[_x]] = list(chain.from_iterable(group))
             data[_l] = Y
         return Table(data)
@@ -1947,7 +1947,7 @@ class Result:
             sorted_=True
 
         to_keep, to_remove, n_larger, n_smaller = [], [], 0, 0
-        for _, group in grouper(indexes,key=itemgetter(0), sorted_=sorted_):
+        for _, group in grouper(indexes,key=itemgetter(0), sorted_=False):
             group = list(group)
             if len(group) > n_levels:
                 n_larger += 1
